@@ -9,15 +9,18 @@ from . import c01
 ID = 'C17'
 E = errno
 ERRNOS = {
-    'mkdir': [E.EACCES, E.EROFS, E.ENOSPC, E.EIO, E.ENAMETOOLONG, E.EMFILE, E.EEXIST],
-    'open': [E.EACCES, E.EROFS, E.ENOSPC, E.EIO, E.ENAMETOOLONG, E.EMFILE, E.EEXIST],
+    'mkdir': [E.EACCES, E.EROFS, E.ENOSPC, E.EIO, E.ENAMETOOLONG, E.EMFILE, E.EEXIST,
+              E.ENOENT, E.ENOTDIR],
+    'open': [E.EACCES, E.EROFS, E.ENOSPC, E.EIO, E.ENAMETOOLONG, E.EMFILE, E.EEXIST,
+             E.ENOENT, E.ELOOP],
     'bopen': [E.EACCES, E.EIO, E.EMFILE, E.ENOSPC],
     'write': [E.ENOSPC, E.EIO, E.EDQUOT],
     'close': [E.EIO],
-    'rename': [E.EACCES, E.EPERM, E.EXDEV, E.EROFS, E.EIO, E.EBUSY, E.ENOSPC],
+    'rename': [E.EACCES, E.EPERM, E.EXDEV, E.EROFS, E.EIO, E.EBUSY, E.ENOSPC,
+               E.ENOENT, E.ENOTDIR, E.EMLINK],
     'replace': [E.EACCES, E.EIO],
-    'unlink': [E.EACCES, E.EPERM, E.EROFS, E.EIO],
-    'remove': [E.EACCES, E.EPERM, E.EROFS, E.EIO],
+    'unlink': [E.EACCES, E.EPERM, E.EROFS, E.EIO, E.ENOENT],
+    'remove': [E.EACCES, E.EPERM, E.EROFS, E.EIO, E.ENOENT],
     'rmdir': [E.EACCES, E.EPERM, E.EROFS, E.EIO],
     'stat': [E.EACCES, E.EIO, E.ELOOP],
     'lstat': [E.EACCES, E.EIO, E.ELOOP],
@@ -98,7 +101,11 @@ def gen_case(rng, index, tier):
         L.add(world.trash_nodes(
             tdir, nm, world.trashinfo_text('old/x', '2001-01-01T00:00:00'),
             [{'p': '', 't': 'f', 'c': 'old payload'}]))
-    opts = []
+    # the mode options change how a MISSING argument is treated, never how a
+    # failure to trash an existing one is reported
+    opts = rng.choice([[], [], [], ['-f'], ['-f'], ['-v'], ['-fv'], ['-rf'],
+                       ['--force', '-vv']])
+    opts = list(opts)
     env = {}
     if where == 'fallback':
         opts.append('--home-fallback')
